@@ -30,8 +30,10 @@ PROPS = {
                             "behaviour-late", "connection-limit-reached", "reconnected", "request-never-sent", "other-connection-opened"],
         "assumptions": ["requests small enough for the socket buffer (the client's partial-send path is an unimplemented stub)",
                         "a request without time-out behind a request that is never answered is not judged"],
-        "quick": {"batches": [("c15_client", "plain", 12000), ("c15_client", "tsan", 1500), ("c15_client", "tsanat", 8000), ("c15_hostile_server", "tsanat", 3000)], "chunk": 100},
-        "thorough": {"batches": [("c15_client", "plain", 80000), ("c15_client", "tsan", 10000), ("c15_client", "asan", 10000), ("c15_client", "tsanat", 100000), ("c15_hostile_server", "tsanat", 30000)], "chunk": 200},
+        "quick": {"batches": [("c15_client", "plain", 12000), ("c15_client", "tsan", 1500), ("c15_client", "tsanat", 8000), ("c15_hostile_server", "tsanat", 3000),
+                              ("e2e_client_server", "plain", 12000), ("e2e_client_server", "tsan", 1200), ("e2e_client_server", "tsanat", 2500)], "chunk": 100},
+        "thorough": {"batches": [("c15_client", "plain", 80000), ("c15_client", "tsan", 10000), ("c15_client", "asan", 10000), ("c15_client", "tsanat", 100000), ("c15_hostile_server", "tsanat", 30000),
+                                 ("e2e_client_server", "plain", 150000), ("e2e_client_server", "tsan", 15000), ("e2e_client_server", "asan", 15000), ("e2e_client_server", "tsanat", 30000)], "chunk": 200},
     },
     "C03": {
         "rule": "server side: 1..4 hostile connections x 1..3 hostile messages each (50 % generated requests with 1..4 mutations, 40 % valid skeletons with hostile "
@@ -123,8 +125,10 @@ PROPS = {
         "probes_expected": ["shutdown-idle", "shutdown-with-load", "shutdown-with-connections-open", "shutdown-with-requests-in-flight",
                             "method-not-allowed", "not-found", "method-without-route-table", "late-client"],
         "assumptions": [],
-        "quick": {"batches": [("c09_serving", "plain", 15000), ("c09_serving", "tsan", 2500), ("c09_serving", "tsanat", 6000)], "chunk": 100},
-        "thorough": {"batches": [("c09_serving", "plain", 100000), ("c09_serving", "tsan", 20000), ("c09_serving", "tsanat", 60000)], "chunk": 500},
+        "quick": {"batches": [("c09_serving", "plain", 15000), ("c09_serving", "tsan", 2500), ("c09_serving", "tsanat", 6000),
+                              ("e2e_client_server", "plain", 4000), ("e2e_client_server", "tsan", 1000)], "chunk": 100},
+        "thorough": {"batches": [("c09_serving", "plain", 100000), ("c09_serving", "tsan", 20000), ("c09_serving", "tsanat", 60000),
+                                 ("e2e_client_server", "plain", 60000), ("e2e_client_server", "tsan", 10000), ("e2e_client_server", "tsanat", 10000)], "chunk": 500},
     },
     "C11": {
         "rule": "promise programs (1..4 roots, 1..10 then/whenAll/whenAny/whenAll(range) nodes, continuation kinds value/void/"
